@@ -365,4 +365,155 @@ theorem blank_para_final : ∀ (x : Bytes), (13 : UInt8) ∉ x →
             _ = x.takeWhile isNL ++ x.dropWhile isNL := by rw [drop_length_takeWhile]
             _ = x := List.takeWhile_append_dropWhile
 
+
+/-! ## uniqueness of the paragraph decomposition -/
+
+/-- records followed by their RTs, concatenated -/
+def catRecs (recs : List (Bytes × Bytes)) : Bytes := (recs.map fun p => p.1 ++ p.2).flatten
+
+/-- a paragraph decomposition: every record a paragraph, every RT a run of LFs, at least two unless the record is the last -/
+def GoodDecomp (recs : List (Bytes × Bytes)) : Prop :=
+  (∀ p ∈ recs, IsParagraph p.1 ∧ ∀ b ∈ p.2, b = 10) ∧ sepOK recs = true
+
+theorem takeWhile_append_stop {p : UInt8 → Bool} : ∀ (l rest : Bytes), (∀ b ∈ l, p b = true) →
+    (∀ c, rest.head? = some c → p c = false) → (l ++ rest).takeWhile p = l := by
+  intro l
+  induction l with
+  | nil =>
+    intro rest _ hr
+    cases rest with
+    | nil => simp
+    | cons c cs => simp [hr c (by simp)]
+  | cons a l ih =>
+    intro rest hl hr
+    have ha : p a = true := hl a (by simp)
+    simp only [List.cons_append, List.takeWhile_cons, ha, if_true]
+    rw [ih rest (fun b hb => hl b (List.mem_cons_of_mem _ hb)) hr]
+
+/-- a run of LFs followed by text that is empty or starts with another byte can be split off in one way only -/
+theorem lf_run_unique (l1 l2 r1 r2 : Bytes) (h1 : ∀ b ∈ l1, b = 10) (h2 : ∀ b ∈ l2, b = 10)
+    (hr1 : r1.head? ≠ some 10) (hr2 : r2.head? ≠ some 10) (h : l1 ++ r1 = l2 ++ r2) : l1 = l2 ∧ r1 = r2 := by
+  have e1 := takeWhile_append_stop (p := fun b => decide (b = 10)) l1 r1 (by simpa using h1)
+    (by intro c hc; simp; intro e; exact hr1 (e ▸ hc))
+  have e2 := takeWhile_append_stop (p := fun b => decide (b = 10)) l2 r2 (by simpa using h2)
+    (by intro c hc; simp; intro e; exact hr2 (e ▸ hc))
+  have : l1 = l2 := by rw [← e1, ← e2, h]
+  subst this
+  exact ⟨rfl, List.append_cancel_left h⟩
+
+theorem catRecs_head (recs : List (Bytes × Bytes)) (hg : GoodDecomp recs) : (catRecs recs).head? ≠ some 10 := by
+  cases recs with
+  | nil => simp [catRecs]
+  | cons p ps =>
+    obtain ⟨hne, hhead, _, _⟩ := (hg.1 p (by simp)).1
+    cases hp : p.1 with
+    | nil => exact absurd hp hne
+    | cons c cs =>
+      rw [hp] at hhead
+      simp only [catRecs, List.map_cons, List.flatten_cons, hp, List.cons_append, List.head?_cons]
+      simpa using hhead
+
+theorem catRecs_nil_iff (recs : List (Bytes × Bytes)) (hg : GoodDecomp recs) : catRecs recs = [] ↔ recs = [] := by
+  constructor
+  · intro h
+    cases recs with
+    | nil => rfl
+    | cons p ps =>
+      obtain ⟨hne, _⟩ := (hg.1 p (by simp)).1
+      simp only [catRecs, List.map_cons, List.flatten_cons, List.append_eq_nil_iff] at h
+      exact absurd h.1.1 hne
+  · intro h; subst h; rfl
+
+theorem GoodDecomp_tail {p : Bytes × Bytes} {ps : List (Bytes × Bytes)} (hg : GoodDecomp (p :: ps)) :
+    GoodDecomp ps ∧ (2 ≤ p.2.length ∨ ps = []) := by
+  obtain ⟨h1, h2⟩ := hg
+  cases ps with
+  | nil => exact ⟨⟨by simp, by simp [sepOK]⟩, Or.inr rfl⟩
+  | cons q qs =>
+    simp only [sepOK, Bool.and_eq_true, decide_eq_true_eq] at h2
+    exact ⟨⟨fun x hx => h1 x (List.mem_cons_of_mem _ hx), h2.2⟩, Or.inl h2.1⟩
+
+theorem hasNN_mid (a b : Bytes) : hasNN (a ++ 10 :: 10 :: b) = true := by
+  have h := hasNN_append_two a
+  cases hc : hasNN (a ++ 10 :: 10 :: b) with
+  | true => rfl
+  | false =>
+    have : a ++ 10 :: 10 :: b = (a ++ [10, 10]) ++ b := by simp
+    rw [this] at hc
+    have := hasNN_prefix _ _ hc
+    rw [h] at this; exact absurd this (by simp)
+
+/-- a paragraph cannot continue into the RT/rest of another decomposition of the same text -/
+theorem para_no_overrun (r1 t1 rest1 u r2 : Bytes) (ht1 : ∀ b ∈ t1, b = 10) (hsep : 2 ≤ t1.length ∨ rest1 = [])
+    (hr2 : IsParagraph r2) (hq : r2 = r1 ++ u) (tail2 : Bytes) (h : t1 ++ rest1 = u ++ tail2) : u = [] := by
+  cases u with
+  | nil => rfl
+  | cons c u' =>
+    exfalso
+    obtain ⟨_, _, hlast, hnn⟩ := hr2
+    cases t1 with
+    | nil =>
+      rcases hsep with hs | hs
+      · simp at hs
+      · subst hs; simp at h
+    | cons d t1' =>
+      have hd : d = 10 := ht1 d (by simp)
+      simp only [List.cons_append, List.cons.injEq] at h
+      obtain ⟨hdc, h⟩ := h
+      subst hdc; subst hd
+      cases u' with
+      | nil => apply hlast; rw [hq]; simp
+      | cons c2 u'' =>
+        cases t1' with
+        | nil =>
+          rcases hsep with hs | hs
+          · simp at hs
+          · subst hs; simp at h
+        | cons d2 t1'' =>
+          have hd2 : d2 = 10 := ht1 d2 (by simp)
+          simp only [List.cons_append, List.cons.injEq] at h
+          obtain ⟨hdc2, _⟩ := h
+          subst hdc2; subst hd2
+          rw [hq, hasNN_mid] at hnn
+          exact absurd hnn (by simp)
+
+theorem para_decomp_unique : ∀ (recs1 recs2 : List (Bytes × Bytes)) (lead1 lead2 : Bytes),
+    (∀ b ∈ lead1, b = 10) → (∀ b ∈ lead2, b = 10) → GoodDecomp recs1 → GoodDecomp recs2 →
+    lead1 ++ catRecs recs1 = lead2 ++ catRecs recs2 → lead1 = lead2 ∧ recs1 = recs2 := by
+  intro recs1
+  induction recs1 with
+  | nil =>
+    intro recs2 lead1 lead2 hl1 hl2 hg1 hg2 h
+    obtain ⟨hl, hc⟩ := lf_run_unique _ _ _ _ hl1 hl2 (catRecs_head _ hg1) (catRecs_head _ hg2) h
+    exact ⟨hl, ((catRecs_nil_iff recs2 hg2).mp hc.symm).symm⟩
+  | cons p ps ih =>
+    intro recs2 lead1 lead2 hl1 hl2 hg1 hg2 h
+    obtain ⟨hl, hc⟩ := lf_run_unique _ _ _ _ hl1 hl2 (catRecs_head _ hg1) (catRecs_head _ hg2) h
+    refine ⟨hl, ?_⟩
+    cases recs2 with
+    | nil =>
+      have := (catRecs_nil_iff (p :: ps) hg1).mp hc
+      exact absurd this (by simp)
+    | cons q qs =>
+      obtain ⟨hgps, hsep1⟩ := GoodDecomp_tail hg1
+      obtain ⟨hgqs, hsep2⟩ := GoodDecomp_tail hg2
+      obtain ⟨hp1, hp2⟩ := hg1.1 p (by simp)
+      obtain ⟨hq1, hq2⟩ := hg2.1 q (by simp)
+      have hsep1' : 2 ≤ p.2.length ∨ catRecs ps = [] := hsep1.imp id (fun e => by subst e; rfl)
+      have hsep2' : 2 ≤ q.2.length ∨ catRecs qs = [] := hsep2.imp id (fun e => by subst e; rfl)
+      have hc' : p.1 ++ (p.2 ++ catRecs ps) = q.1 ++ (q.2 ++ catRecs qs) := by
+        simpa [catRecs, List.append_assoc] using hc
+      have hfst : p.1 = q.1 := by
+        rcases List.append_eq_append_iff.mp hc' with ⟨u, hu1, hu2⟩ | ⟨u, hu1, hu2⟩
+        · have := para_no_overrun p.1 p.2 (catRecs ps) u q.1 hp2 hsep1' hq1 hu1 _ hu2
+          subst this; simpa using hu1.symm
+        · have := para_no_overrun q.1 q.2 (catRecs qs) u p.1 hq2 hsep2' hp1 hu1 _ hu2
+          subst this; simpa using hu1
+      rw [hfst] at hc'
+      have hc2 := List.append_cancel_left hc'
+      obtain ⟨hsnd, hrest⟩ := lf_run_unique _ _ _ _ hp2 hq2 (catRecs_head _ hgps) (catRecs_head _ hgqs) hc2
+      have htl := (ih qs [] [] (by simp) (by simp) hgps hgqs (by simpa using hrest)).2
+      have hpq : p = q := Prod.ext hfst hsnd
+      rw [hpq, htl]
+
 end GoawkModel.C07
